@@ -60,6 +60,20 @@ class Program:
                 out.append({"fid": n["fid"], "qn": "<lambda>", "l": n.get("l"), "k": "lambda"})
         return out
 
+    def indirect_targets(self, call_node):
+        out = []
+        names = {x["d"] for x in walk(call_node["fn"]) if x["k"] == "ref" and x.get("dk") == "global"}
+        for nm in names:
+            for v in self.facts.vars_by_name.get(nm, []):
+                if v.get("init") is None:
+                    continue
+                for x in walk(v["init"]):
+                    if x["k"] == "ref" and x.get("dk") == "func":
+                        g = self.facts.funcs.get(x["fid"])
+                        if g is not None and g not in out:
+                            out.append(g)
+        return out
+
     def callees(self, func, include_fnptr=True):
         """[(call node or ref node, Func)] resolved callees with bodies in the repo."""
         if func.id in self._callees:
@@ -68,6 +82,12 @@ class Program:
         for n in func.nodes():
             if astq.is_call(n) and n.get("cid"):
                 for g in self.resolve(n["cid"]):
+                    out.append((n, g))
+        # indirect calls through a table of function pointers held in a global (e.g. tfs[i].fun(...)):
+        # every function whose address appears in that global's initialiser is a possible callee
+        for n in func.nodes():
+            if n.get("k") in ("call", "mcall") and not n.get("cid") and n.get("fn") is not None:
+                for g in self.indirect_targets(n):
                     out.append((n, g))
         if include_fnptr:
             for r in self.fnptr_refs(func):
@@ -380,6 +400,10 @@ class ExcEngine:
             else:
                 for ty in self.external_throws(n):
                     out.setdefault(ty, ("libcall", func.loc(n), n.get("callee")))
+                if not cid and n.get("fn") is not None:
+                    for g in self.prog.indirect_targets(n):
+                        for t, w in cur.get(g.id, {}).items():
+                            out.setdefault(t, ("call", func.loc(n), g.id))
         from .facts import children
         for c in children(n):
             if c.get("k") == "lambda" and False:
